@@ -8,6 +8,8 @@
  *   dgram <path> <fill 0|1>          bound, never read datagram socket; fill=1: queue filled until EAGAIN
  *   devlog <path> <fill 0|1>         same, and connect("/dev/log") is redirected to it (by librecorder)
  *   stream <path> / devlog-stream <path>   listening STREAM socket with a full accept backlog that nobody accepts from
+ *   rmcwd <path>                     mkdir+chdir+rmdir: the working directory no longer exists
+ *   flockfile <path>                 create the file and keep an exclusive flock on it through another open file description
  *   parentname <fmt>                 fork: the script continues in the child, the parent renames itself (fmt may hold %d = its pid) and waits
  *   stdfd <1|2> <pipe-noreader|pipe-full|null|file:<path>>      what the CALLER's descriptor is
  *   stdin <null|closed|pty>
@@ -31,6 +33,7 @@
 #include <string.h>
 #include <time.h>
 #include <unistd.h>
+#include <sys/file.h>
 #include <sys/prctl.h>
 #include <sys/socket.h>
 #include <sys/stat.h>
@@ -174,6 +177,11 @@ static void handle_line(int nf, char **f) {
     } else if (!strcmp(f[0], "fifo") && nf >= 2) { char *p = subst(f[1], strlen(f[1]), NULL); unlink(p); mkfifo(p, 0666);
     } else if (!strcmp(f[0], "dgram") && nf >= 3) { char *p = subst(f[1], strlen(f[1]), NULL); bind_dgram(p, atoi(f[2]));
     } else if (!strcmp(f[0], "devlog") && nf >= 3) { char *p = subst(f[1], strlen(f[1]), NULL); bind_dgram(p, atoi(f[2])); strncpy(verif_expect.devlog_redirect, p, sizeof verif_expect.devlog_redirect - 1);
+    } else if (!strcmp(f[0], "rmcwd") && nf >= 2) {      /* the caller's working directory is removed under its feet: getcwd() -> ENOENT */
+        char *p = subst(f[1], strlen(f[1]), NULL); mkdir(p, 0755); if (chdir(p) == 0) rmdir(p);
+    } else if (!strcmp(f[0], "flockfile") && nf >= 2) {  /* the log file exists and ANOTHER open file description holds an exclusive flock on it for the whole run */
+        char *p = subst(f[1], strlen(f[1]), NULL); int fd = open(p, O_RDWR | O_CREAT | O_CLOEXEC, 0666);
+        if (fd >= 0) { int hi = fcntl(fd, F_DUPFD_CLOEXEC, 190); close(fd); if (flock(hi, LOCK_EX | LOCK_NB)) recf("note\tflock-failed\n"); }
     } else if (!strcmp(f[0], "stream") && nf >= 2) { char *p = subst(f[1], strlen(f[1]), NULL); bind_stream_full(p);
     } else if (!strcmp(f[0], "devlog-stream") && nf >= 2) { char *p = subst(f[1], strlen(f[1]), NULL); bind_stream_full(p); strncpy(verif_expect.devlog_redirect, p, sizeof verif_expect.devlog_redirect - 1);
     } else if (!strcmp(f[0], "parentname") && nf >= 2) {
